@@ -700,6 +700,28 @@ func c18Outcome(w http.ResponseWriter, kind string) {
 	}
 }
 
+// c18PartialWriter: an underlying http.ResponseWriter that accepts only the first `left` bytes
+type c18PartialWriter struct {
+	http.ResponseWriter
+	left int
+	fail bool
+}
+
+func (w *c18PartialWriter) Write(p []byte) (int, error) {
+	n := len(p)
+	if n > w.left {
+		n = w.left
+	}
+	w.left -= n
+	w.ResponseWriter.Write(p[:n])
+	if n < len(p) && w.fail {
+		return n, io.ErrShortWrite
+	}
+	return n, nil
+}
+
+func (w *c18PartialWriter) WriteString(s string) (int, error) { return w.Write([]byte(s)) }
+
 // c18Inner: the wrapped (user) handler of the cs / crypt sections: reads the body, sets an explicit status (st…), writes the
 // reply, panics (panic-… / abort) — in that order
 func c18Inner(got *c18Got, reply []byte, hk string) http.Handler {
@@ -1016,15 +1038,29 @@ func c18StartCrypt(cfg verifh.Cfg) (func(op []string) string, func()) {
 		q := c18Req{method: http.MethodPost, target: "/a", body: body, fr: kv["fr"], clOverride: kv["cl"]}
 		var got c18Got
 		inner := c18Inner(&got, reply, kv["hk"])
-		status, respBody := wire.send(kv["via"], c18Front(&got, mw(inner)), q)
+		var front http.Handler = c18Front(&got, mw(inner))
+		if wk := kv["wk"]; wk != "" {
+			// the underlying writer takes only the first n bytes: "fail:n" returns an error, "short:n" returns n < len without one
+			p := strings.SplitN(wk, ":", 2)
+			inner0 := front
+			front = http.HandlerFunc(func(w http.ResponseWriter, r *http.Request) {
+				inner0.ServeHTTP(&c18PartialWriter{ResponseWriter: w, left: verifh.Atoi(p[1]), fail: p[0] == "fail"}, r)
+			})
+		}
+		status, respBody := wire.send(kv["via"], front, q)
 		if !got.reached {
 			return "unreached status=" + status
 		}
 		if got.panicked {
 			status = "PANIC"
 		}
+		texts := [][]byte{body, respBody}
+		if kv["wk"] != "" && (len(key) == 16 || len(key) == 24 || len(key) == 32) {
+			// the reply may arrive cut: the block table needs the blocks of the WHOLE encrypted reply (stdlib AES)
+			texts = append(texts, c18ClientEncrypt(key, reply))
+		}
 		return fmt.Sprintf("cl=%d aes=%s ran=%d status=%s seen=%s resp=%s", got.cl,
-			c18AesOracle(key, body, respBody), got.ran, status, c18Hex(got.seen), c18Hex(respBody))
+			c18AesOracle(key, texts...), got.ran, status, c18Hex(got.seen), c18Hex(respBody))
 	}
 	return step, wire.close
 }
@@ -2177,6 +2213,9 @@ func c18GenCrypt(r *verifh.Rng, plan *c18Plan, combos [][2]int) verifh.Section {
 		op += " fr=" + fr + extra
 		if r.Chance(1, 4) {
 			op += " hk=" + r.PickS("st404", "st500", "panic-err", "panic-str", "abort")
+		}
+		if !strings.Contains(op, "via=wire") && r.Chance(1, 6) {
+			op += fmt.Sprintf(" wk=%s:%d", r.PickS("fail", "short"), r.Pick(0, 1, 23, 24, 25, 44, 1000))
 		}
 		ops = append(ops, op)
 	}
